@@ -125,12 +125,13 @@ fn c02_o1d_from_dht_message_max_salt() {
 //@ cap: 900
 //@ also: C03 C05
 //@ desc: malformed key lengths are rejected without panic and without any verification: key slice length in {0, 31, 33}
-//@ bounds: key lengths 0, 31, 33 (one concrete call each), symbolic 1-byte value, well-formed 64-byte signature; unwind 130
-//@ stubs: <VerifyingKey as Verifier<Signature>>::verify -> oracle (never reached)
+//@ bounds: key lengths 0, 31, 33 (one concrete call each), symbolic 1-byte value, well-formed 64-byte signature; unwind 34
+//@ stubs: <VerifyingKey as Verifier<Signature>>::verify -> oracle (never reached); VerifyingKey::from_bytes (point decompression) -> flagged cut: a key of the wrong length must be refused before it
 //@ functions: MutableItem::from_dht_message, VerifyingKey::try_from (length check)
 #[kani::proof]
 #[kani::stub(<ed25519_dalek::VerifyingKey as ed25519_dalek::Verifier<ed25519_dalek::Signature>>::verify, oracle::verify_stub)]
-#[kani::unwind(130)]
+#[kani::stub(ed25519_dalek::VerifyingKey::from_bytes, oracle::from_bytes_cut)]
+#[kani::unwind(34)]
 fn c02_o1e_from_dht_message_key_lengths() {
     oracle::arm(0, true);
     let kbuf = [1u8; 33];
@@ -143,6 +144,7 @@ fn c02_o1e_from_dht_message_key_lengths() {
     assert!(oracle::asked() == 0, "C02.O1e nothing verified for malformed lengths");
     kani::cover!(vb == 0);
     kani::cover!(vb != 0);
+    assert!(!crate::verif_env::cut_reached(), "CUT: point decompression reached for a key of the wrong length");
     std::mem::forget(r0);
     std::mem::forget(r1);
     std::mem::forget(r2);
